@@ -126,7 +126,8 @@ func (vc *VC) monitorCall(name string, c *ssa.CallCommon, st *State, reach Term,
 // monitorRecord copies every heap of the state into ghost heaps under the prefix (path-sensitive
 // snapshot: ghost heaps are merged at joins like any other).
 func (vc *VC) monitorRecord(st *State, prefix string) {
-	for name, sort := range vc.heapSort {
+	for _, name := range sortedKeys(vc.heapSort) {
+		sort := vc.heapSort[name]
 		if len(name) > 0 && name[0] == '$' || hasPrefixAny(name, "iter@", "Local_") {
 			continue
 		}
